@@ -382,8 +382,6 @@ def oracle(case, res):
 def classify(case, failure, model_out):
     if case['kind'] == 'pure' and case['op'][0] == 'query':
         q = case['op'][1]
-        if q == 'eval_bare' and ('aliasing' in failure or 'writing into the result' in failure):
-            return KEY_EVAL
         if q in ('slice_dim', 'getvarpnc', 'pncrename') and ('aliasing' in failure or 'writing into the result' in failure):
             return KEY_LEGACY
     return None
@@ -400,8 +398,7 @@ def witnesses():
     spec = dict(dims=[['t', 2, False], ['x', 3, False]], attrs=[],
                 vars=[dict(name='A', dims=['t', 'x'], dtype='d', masked=False, attrs=[], data=[1, 2, 3, 4, 5, 6]),
                       dict(name='x', dims=['x'], dtype='d', masked=False, attrs=[], data=[10, 20, 30])])
-    return [(KEY_EVAL, dict(kind='pure', spec=spec, op=['query', 'eval_bare'])),
-            (KEY_LEGACY, dict(kind='pure', spec=spec, op=['query', 'slice_dim']))]
+    return [(KEY_LEGACY, dict(kind='pure', spec=spec, op=['query', 'slice_dim']))]
 
 
 def distribution(recs):
